@@ -191,7 +191,8 @@ func (b *BitArray) Xor(other *BitArray) error {
 	if b.size != other.size {
 		return errors.New("IllegalArgumentException: Sizes don't match")
 	}
-	for i := 0; i < len(b.bits); i++ {
+	// the two arrays may have different capacities; only the words holding bits take part
+	for i := 0; i < (b.size+31)/32; i++ {
 		b.bits[i] ^= other.bits[i]
 	}
 	return nil
